@@ -138,6 +138,10 @@ def configs(tier, seed):
         # ... and from a non-initial state: a position is open while the price sits at zero twice
         spec = dict(v, shape="T1", alpha="exact", capital=64.0, ndates=4, prices={"a": [4.0, 0.0, 0.0, 2.0], "b": [1.0, 2.0, 0.0, 1.0]}, preops=[["transact", [], "a", 3.0], ["next"]])
         out.append(("T1/zero2/%s" % _vname(v), spec, alpha.base_ops("T1") + [["next_raw"]], 2 if quick else 3))
+    # deliveries: fills at a custom price of exactly zero with bid/offer accounting on - no cash moves at all
+    for integer in ((False,) if quick else (False, True)):
+        spec = {"integer": integer, "fee": None, "spread": 0.5, "mult": {"a": 2}, "shape": "T1", "alpha": "exact", "capital": 64.0, "ndates": 4}
+        out.append(("T1/delivery/%s" % ("int" if integer else "frac"), spec, alpha.base_ops("T1") + [["next_raw"], ["sectransact", ["a"], 2.0, 0.0], ["sectransact", ["b"], -3.0, 0.0]], 2 if quick else 3))
     # a coupon-paying security marked to market (fixed_income=False) with a contract multiplier
     from . import _ledger_run
 
